@@ -826,6 +826,8 @@ def leveled_trivial_lmax(fns):
                       any(re.search(r"= Not\(", st) for blk in live_blocks(c) for st in blk.stmts) for c in cl)
         if v1[0] == "proved" and v2[0] == "proved" and body_ok:
             scans_false.append(false_edge(fn, b))
+    if not calls(fn, r"<std::ops::Range<usize> as Iterator>::any::<"):
+        raise MirError("choose: the intermediate-level emptiness scan is no longer a `(a..b).any(..)` (refactored?)")
     ov = calls(fn, r"KeyRange::overlaps_with_key_range$")
     ov_false = []
     for b in ov:
@@ -905,7 +907,7 @@ def _call_chain(fn, local, depth=8):
         cur = m.group(0)
         # follow simple moves
         for _ in range(4):
-            d = [st for b in live_blocks(fn) for st in b.stmts if re.match(r"^%s = (move|copy) _\d+$" % cur, st)]
+            d = [st for b in live_blocks(fn) for st in b.stmts if re.match(r"^%s = (move |copy |&mut |&)_\d+$" % cur, st)]
             if len(d) == 1:
                 cur = RE_LOCAL.findall(d[0])[1]
             else:
@@ -1131,7 +1133,192 @@ def register_blob_after_write(fns):
     return out
 
 
+
+# ---------------------------------------------------------------------------------------------
+# C18 O18.3 / O18.4: sequence-number high-water marks are computed from the right fields
+# ---------------------------------------------------------------------------------------------
+
+def struct_fields(src_root, rel, name):
+    """declaration-ordered field names of `struct name` in src_root/rel (MIR numbers fields in that order)"""
+    txt = open(os.path.join(src_root, rel)).read()
+    m = re.search(r"struct %s\s*\{(.*?)\n\}" % re.escape(name), txt, re.S)
+    if not m:
+        raise MirError("struct %s not found in %s" % (name, rel))
+    out = []
+    for line in m.group(1).splitlines():
+        mm = re.match(r"^\s*(pub(\([^)]*\))?\s+)?([a-z_][a-z0-9_]*)\s*:", line)
+        if mm and not line.strip().startswith("//"):
+            out.append(mm.group(3))
+    return out
+
+
+import os
+SRC_ROOT = os.path.join(os.environ.get("VERIF_SCRATCH", "/var/tmp/verif-scratch"), "mir", "lsm")
+
+
+def seqno_marks(fns):
+    out = []
+    # (1) Writer::write keeps lowest / highest seqno
+    fields = struct_fields(SRC_ROOT, "src/table/writer/meta.rs", "Metadata")
+    lo_i, hi_i = fields.index("lowest_seqno"), fields.index("highest_seqno")
+    fn = mir.find(fns, r"src/table/writer/mod\.rs[^>]*>::write\(_1: &mut table::writer::Writer")
+    a = Automaton(fn, "O18.3 table::Writer::write: meta.highest_seqno = max(meta.highest_seqno, item seqno), meta.lowest_seqno = min(..)")
+    seq_local = fn.debug.get("seqno")
+    if not seq_local:
+        raise MirError("Writer::write: local `seqno` not found")
+    facts = {}
+    for b in calls(fn, r"<u64 as Ord>::(min|max)$"):
+        which = "max" if b.callee.endswith("max") else "min"
+        args = [x.strip() for x in mir.split_top(b.args)]
+        # first operand: copy of a Metadata field (possibly via a temp defined in the same block)
+        def fld(op):
+            mm = re.search(r"Metadata\)\.(\d+): u64\)", op)
+            if mm:
+                return int(mm.group(1))
+            l = RE_LOCAL.search(op)
+            if l:
+                for st in b.stmts:
+                    if st.startswith(l.group(0) + " = "):
+                        mm = re.search(r"Metadata\)\.(\d+): u64\)", st)
+                        if mm:
+                            return int(mm.group(1))
+            return None
+        f0, f1 = fld(args[0]), fld(args[1])
+        uses_seq = any(RE_LOCAL.search(x) and RE_LOCAL.search(x).group(0) == seq_local for x in args)
+        # where does the result go?
+        dest_field = None
+        for nb in [fn.blocks[t] for t in b.succ]:
+            for st in nb.stmts:
+                mm = re.match(r"^\(\(\(\*_1\)\.\d+: table::writer::meta::Metadata\)\.(\d+): u64\) = move %s$" % re.escape(b.dest), st)
+                if mm:
+                    dest_field = int(mm.group(1))
+        src_field = f0 if f0 is not None else f1
+        facts[which] = (src_field, dest_field, uses_seq)
+    if "max" not in facts or "min" not in facts:
+        # the expected shape (u64::max / u64::min on the tracked fields) is gone: a refactoring, not a verdict
+        raise MirError("Writer::write: seqno range is no longer tracked with u64::min / u64::max (found %s)" % sorted(facts))
+    ok_hi = facts.get("max") == (hi_i, hi_i, True)
+    ok_lo = facts.get("min") == (lo_i, lo_i, True)
+    a.glue = [("highest_seqno <- max(highest_seqno, seqno)", "proved" if ok_hi else "refuted", 0.0),
+              ("lowest_seqno <- min(lowest_seqno, seqno)", "proved" if ok_lo else "refuted", 0.0)]
+    rets = [b.idx for b in live_blocks(fn) if b.kind == "return"]
+    ok_ret, _ = ret_blocks(fn)
+    upd_hi = [fn.blocks[t].idx for b in calls(fn, r"<u64 as Ord>::max$") for t in b.succ] if ok_hi else []
+    upd_lo = [fn.blocks[t].idx for b in calls(fn, r"<u64 as Ord>::min$") for t in b.succ] if ok_lo else []
+    a.var("hi").var("lo")
+    a.event("ok:highest_seqno = max(highest_seqno, seqno)", upd_hi).on("ok:highest_seqno = max(highest_seqno, seqno)", "hi", True)
+    a.event("ok:lowest_seqno = min(lowest_seqno, seqno)", upd_lo).on("ok:lowest_seqno = min(lowest_seqno, seqno)", "lo", True)
+    a.event("ret_ok", ok_ret)
+    a.require("ret_ok", "(and {hi} {lo})", "Writer::write can return Ok without folding the item's seqno into the table's seqno range (the reported high-water mark no longer equals what is stored)")
+    out.append(a)
+
+    # (2) Writer::finish stores the tracked fields under the right names; ParsedMeta reads them back in (min, max) order
+    fin = mir.find(fns, r"src/table/writer/mod\.rs[^>]*>::finish\(_1: table::writer::Writer\)")
+    b2 = Automaton(fin, "O18.3b table::Writer::finish: `seqno#max` / `seqno#min` are written from meta.highest_seqno / meta.lowest_seqno")
+    pairs = {}
+    defs = {}
+    for bb in live_blocks(fin):
+        for st in bb.stmts:
+            mm = re.match(r"^(_\d+) = (.*)$", st)
+            if mm:
+                defs.setdefault(mm.group(1), []).append(mm.group(2))
+    calldefs = {bb.dest: bb for bb in live_blocks(fin) if bb.kind == "call" and bb.dest and RE_LOCAL.fullmatch(bb.dest)}
+
+    def const_name(local, depth=4):
+        for _ in range(depth):
+            d = defs.get(local, [])
+            if len(d) != 1:
+                return None
+            mm = re.search(r'const "([^"]+)"', d[0])
+            if mm:
+                return mm.group(1)
+            l = RE_LOCAL.search(d[0])
+            if not l:
+                return None
+            local = l.group(0)
+        return None
+
+    def meta_field(local, depth=6):
+        for _ in range(depth):
+            if local in calldefs and "to_le_bytes" in calldefs[local].callee:
+                cb = calldefs[local]
+                mm = re.search(r"Metadata\)\.(\d+): u64\)", cb.args or "")
+                if mm:
+                    return int(mm.group(1))
+                l = RE_LOCAL.search(cb.args or "")
+                if not l:
+                    return None
+                local = l.group(0)
+                continue
+            d = defs.get(local, [])
+            if len(d) != 1:
+                return None
+            mm = re.search(r"Metadata\)\.(\d+): u64\)", d[0])
+            if mm:
+                return int(mm.group(1))
+            l = RE_LOCAL.search(d[0])
+            if not l:
+                return None
+            local = l.group(0)
+        return None
+
+    for blk in calls(fin, r"finish::meta$"):
+        args = [x.strip() for x in mir.split_top(blk.args)]
+        l0, l1 = RE_LOCAL.search(args[0]), RE_LOCAL.search(args[1])
+        nm = re.search(r'const "([^"]+)"', args[0])
+        name = nm.group(1) if nm else (const_name(l0.group(0)) if l0 else None)
+        if name in ("seqno#max", "seqno#min") and l1:
+            pairs[name] = meta_field(l1.group(0))
+    if "seqno#max" not in pairs or "seqno#min" not in pairs or None in pairs.values():
+        raise MirError("Writer::finish: meta items seqno#max / seqno#min not found in the expected shape (%s)" % pairs)
+    okp = pairs.get("seqno#max") == hi_i and pairs.get("seqno#min") == lo_i
+    b2.glue = [("meta item seqno#max <- highest_seqno, seqno#min <- lowest_seqno (found: %s)" % pairs, "proved" if okp else "refuted", 0.0)]
+    b2.var("x")
+    b2.event("call:meta(seqno#..) from the WRONG field", [] if okp else [blk.idx for blk in calls(fin, r"finish::meta$")][:1])
+    b2.require("call:meta(seqno#..) from the WRONG field", "false", "the table's stored seqno range is not written from the tracked lowest / highest seqno")
+    out.append(b2)
+
+    # (3) the tree-level marks iterate everything
+    g = mir.find(fns, r"src/tree/mod\.rs[^>]*>::get_highest_persisted_seqno\(")
+    c = Automaton(g, "O18.4 Tree::get_highest_persisted_seqno = max over ALL tables of the current version of Table::get_highest_seqno")
+    chain_ok = False
+    rets = [b for b in live_blocks(g) if b.kind == "call" and b.dest == "_0"]
+    if not (len(rets) == 1 and re.search(r"as Iterator>::(max|min|last|next|fold|max_by_key)", rets[0].callee)):
+        raise MirError("get_highest_persisted_seqno: result is not produced by an iterator adaptor chain")
+    if len(rets) == 1 and re.search(r"as Iterator>::max$", rets[0].callee):
+        ch = _call_chain(g, RE_LOCAL.search(rets[0].args).group(0))
+        maps = [b for b in live_blocks(g) if b.kind == "call" and "as Iterator>::map" in b.callee]
+        chain_ok = any("iter_tables" in x for x in ch) and any("current_version" in x for x in ch) and \
+            any(re.search(r"Table::get_highest_seqno$", (b.args or "")) for b in maps)
+    c.glue = [("result = max(map(iter_tables(current_version()), Table::get_highest_seqno))", "proved" if chain_ok else "refuted", 0.0)]
+    c.var("x")
+    c.event("return:NOT the max over all tables", [] if chain_ok else [b.idx for b in live_blocks(g) if b.kind == "return"])
+    c.require("return:NOT the max over all tables", "false", "get_highest_persisted_seqno is not the maximum of Table::get_highest_seqno over every table of the current version")
+    out.append(c)
+
+    h = mir.find(fns, r"src/tree/mod\.rs[^>]*>::get_highest_memtable_seqno\(")
+    d = Automaton(h, "O18.4b Tree::get_highest_memtable_seqno = max(active memtable, every sealed memtable)")
+    fin_call = [b for b in live_blocks(h) if b.kind == "call" and b.dest == "_0"]
+    if len(fin_call) != 1:
+        raise MirError("get_highest_memtable_seqno: result is not produced by a single call")
+    okm = False
+    if len(fin_call) == 1 and re.search(r"<Option<u64> as Ord>::max$", fin_call[0].callee):
+        ops = RE_LOCAL.findall(fin_call[0].args)
+        chains = [_call_chain(h, o) for o in ops]
+        has_active = any(ch and re.search(r"Memtable::get_highest_seqno$", ch[0]) for ch in chains)
+        has_sealed = any(any("flatten" in x for x in ch) and any(re.search(r"as Iterator>::max$", x) for x in ch) and any("SealedMemtables::iter" in x for x in ch) for ch in chains)
+        cl_ok = any(fn_calls_matching(fns, cf, r"Memtable::get_highest_seqno$", 0) for b in calls(h, r"as Iterator>::map::<") for cf in closure_fns(fns, b))
+        okm = has_active and has_sealed and cl_ok
+    d.glue = [("result = max(active.get_highest_seqno(), flatten(max(sealed.iter().map(get_highest_seqno))))", "proved" if okm else "refuted", 0.0)]
+    d.var("x")
+    d.event("return:NOT max(active, all sealed)", [] if okm else [b.idx for b in live_blocks(h) if b.kind == "return"])
+    d.require("return:NOT max(active, all sealed)", "false", "get_highest_memtable_seqno does not cover the active and every sealed memtable")
+    out.append(d)
+    return out
+
+
 SPECS = {
+    "O18.3": [seqno_marks],
     "O14.3": [seqno_translation],
     "O3.6": [direction_discipline],
     "O9.4": [register_blob_after_write],
